@@ -37,9 +37,14 @@ def structured(rng, n, dims_feat, cplx=False, nan_samples=(), two_sample_dims=Fa
     for d, s in zip(sdims + fd, shp):
         coords[d] = np.arange(s) * (10 if d in ("lat",) else 1)
     da = xr.DataArray(X, dims=sdims + fd, coords=coords)
-    if nan_samples and not two_sample_dims:
+    if nan_samples:
         da = da.copy()
-        da.values[list(nan_samples)] = np.nan
+        if two_sample_dims:
+            n2 = shp[1]
+            for q in nan_samples:
+                da.values[(q // n2) % shp[0], q % n2] = np.nan
+        else:
+            da.values[list(nan_samples)] = np.nan
     return da, sdims
 
 
@@ -58,6 +63,12 @@ def compare(ctx, key, what, scores, tr, sdims, replay):
             # align on labels: every label of the transform result must be a label of the scores
             valid = scores.dropna(sdims[0], how="all") if len(sdims) == 1 else scores
             av = a.dropna(sdims[0], how="all") if len(sdims) == 1 else a
+            if len(sdims) > 1:
+                # several sample dims: compare at every label; entirely missing samples may be omitted or NaN
+                av = a.stack(__s=list(sdims)).dropna("__s", how="all")
+                valid = scores.transpose(*a.dims).stack(__s=list(sdims)).dropna("__s", how="all")
+                if [tuple(x) for x in av.indexes["__s"].tolist()] != [tuple(x) for x in valid.indexes["__s"].tolist()]:
+                    ok, why = False, "sample labels differ"
             if len(sdims) == 1:
                 if list(av[sdims[0]].values) != list(valid[sdims[0]].values):
                     ok, why = False, "sample labels differ: %r vs %r" % (list(av[sdims[0]].values)[:6], list(valid[sdims[0]].values)[:6])
@@ -82,8 +93,8 @@ def run_single(ctx, rng, n_cases):
         n = int(rng.integers(6, 14))
         two_f = bool(rng.random() < 0.4)
         dims_feat = (2, int(rng.integers(2, 4))) if two_f else (int(rng.integers(3 if name == "POP" else 2, 6)),)
-        two_s = bool(rng.random() < 0.25) and name != "POP"
-        nan_s = tuple(sorted(set(rng.integers(0, n, size=int(rng.integers(0, 3))).tolist()))) if (rng.random() < 0.3 and name in ("EOF", "SparsePCA")) else ()
+        two_s = bool(rng.random() < 0.3) and name != "POP"
+        nan_s = tuple(sorted(set(rng.integers(0, n if not two_s else 2 * max(2, n // 2), size=int(rng.integers(1, 3))).tolist()))) if (rng.random() < 0.35 and name in ("EOF", "SparsePCA")) else ()
         da, sdims = structured(rng, n, dims_feat, cplx=sp.cplx, nan_samples=nan_s, two_sample_dims=two_s, red=sp.ordered)
         p = int(np.prod(dims_feat))
         nn = int(np.prod([da.sizes[d] for d in sdims])) - len(nan_s)
@@ -93,7 +104,7 @@ def run_single(ctx, rng, n_cases):
         if name == "POP":
             k = 2
         replay = dict(kind="single", cls=name, k=k, kw=kw, dims=da.dims, shape=da.shape, nan_samples=nan_s, data=np.asarray(da.values))
-        ctx.case(("single", name, da.shape, k, str(kw), nan_s), nontrivial=nn >= 3 and p >= 2, tag="%s/%s" % (name, "nan" if nan_s else "plain"),
+        ctx.case(("single", name, da.shape, k, str(kw), nan_s), nontrivial=nn >= 3 and p >= 2, tag="%s/%s%s" % (name, "nan" if nan_s else "plain", "/two-sample-dims" if two_s else ""),
                  sample=dict(cls=name, shape=list(da.shape), dims=list(da.dims), k=k, kw=kw, nan_samples=list(nan_s)))
         try:
             m = sp.make(k, **kw)
@@ -101,9 +112,9 @@ def run_single(ctx, rng, n_cases):
             sc = m.scores()
             tr = m.transform(da)
         except Exception as e:
-            ctx.violation("C04:error:%s:%s" % (name, C.errkind(e)), "%s fit/transform raised %r" % (name, e), replay)
+            ctx.violation("C04:error:%s:%s%s" % (name, C.errkind(e), ":nan-sample+two-sample-dims" if (nan_s and two_s) else ""), "%s fit/transform raised %r" % (name, e), replay)
             continue
-        compare(ctx, "C04:%s" % name, "%s(k=%d, %s)" % (name, k, kw), sc, tr, sdims, replay)
+        compare(ctx, "C04:%s%s" % (name, ":nan-sample+two-sample-dims" if (nan_s and two_s) else ""), "%s(k=%d, %s)" % (name, k, kw), sc, tr, sdims, replay)
         if name in ("EOF", "ComplexEOF"):
             trn = m.transform(da, normalized=True)
             compare(ctx, "C04:%s:normalized" % name, "%s normalized" % name, m.scores(normalized=True), trn, sdims, replay)
